@@ -45,7 +45,7 @@ static void prf(void)
         }
     }
     static const size_t longs[] = {255, 256, 257, 1023, 1024, 1025, 4095, 4096, 4097, 65535, 65536, 65537};
-    if (tier) for (unsigned i = 0; i < 12; i++) {
+    for (unsigned i = 0; i < 12; i++) {   /* long lengths in every tier */
         uint8_t *o = hx_buf(40);
         ref_prf(key, 0, msg, longs[i], exp, 40); ascon_prf(o, 40, msg, longs[i], key); cmpo("prf:oneshot", o, exp, 40, "long inlen", longs[i], 40, 0, 0);
         hx_free(o); o = hx_buf(longs[i]);
